@@ -131,7 +131,7 @@ fn pipeline(t: &mut Tape, ctx: &mut Ctx) -> CheckResult {
             break; // keep sizes bounded
         }
         let what: String;
-        match t.choice(14) {
+        match t.choice(15) {
             0 => {
                 let tl = type_list(t, al, 3);
                 let g = gen::diagram_with_boundary(t, &sz, al, &b, &tl, ctx);
@@ -257,6 +257,23 @@ fn pipeline(t: &mut Tape, ctx: &mut Ctx) -> CheckResult {
                 cur = img.to_strict();
                 a = table.objects(&a);
                 b = table.objects(&b);
+            }
+            14 => {
+                // lax editing: record some unifications, delete a few nodes, strictify
+                let n = cur_d.nodes.len();
+                let mut l = crate::model::Lax { d: cur_d.clone(), q: gen::pending_pairs(t, &cur_d, 3, true) };
+                let del: Vec<usize> = if n == 0 { vec![] } else { (0..t.range(0, 2)).map(|_| t.choice(n)).collect() };
+                what = format!("lax: unify {:?} ; delete_nodes({:?}) ; to_strict", l.q, del);
+                let mut g = to_lax(&l);
+                g.delete_nodes(&ids(&del));
+                let got = from_lax(&g).map_err(|e| ctx.fail("output-well-formed", format!("{what}: {e}")))?;
+                super::c11::model_delete_nodes(&mut l, &del, true);
+                ensure!(ctx, got == l, "output-well-formed", "{what}: lax diagram after delete_nodes differs from the list model\n  got : {}\n  want: {}", got.pretty(), l.pretty());
+                g.quotient().map_err(|_| ctx.fail("output-well-formed", format!("{what}: the edited diagram cannot be quotiented")))?;
+                cur = g.to_strict();
+                let want = l.strictify().expect("consistent pairs survive deletion");
+                a = want.source_type();
+                b = want.target_type();
             }
             10 => {
                 // coequalise vertices along equal-labelled pairs
